@@ -643,7 +643,8 @@ def run(tier, seed):
     # DESIGN 11.7: these decision functions are regenerated from the Rust source and proved equal to the
     # model's for all inputs; a failure is reported when the check finishes unless a stage below finds a
     # concrete failing input
-    gen_tie.gate(chk, ['logic_or', 'logic_and', 'prefer_expression', 'from_result', 'is_match'], gate)
+    gen_tie.gate(chk, ['logic_or', 'logic_and', 'prefer_expression', 'from_result', 'is_match', 'filter_ignored_mismatch',
+                         'filter_match'], gate)
     binary, err = vlib.build_harness()
     if binary is None:
         chk.violation("broken-obligation", "harness-build", dict(error=err), no_input=True)
